@@ -78,6 +78,20 @@ func hTypeOf(e Expr) hTy {
 			return hTypeOf(x.Right)
 		case BinOpLogicalAnd, BinOpLogicalOr, BinOpNullishCoalescing:
 			l, r := hTypeOf(x.Left), hTypeOf(x.Right)
+			// when the left operand decides statically, the result is one side
+			if x.Op == BinOpNullishCoalescing {
+				if l == hTyNullish {
+					return r
+				}
+				if l != hTyUnknown && l != hTyPrimitive {
+					return l
+				}
+			} else if truthy, known := hLiteralTruthy(x.Left); known {
+				if (x.Op == BinOpLogicalOr) == truthy {
+					return l
+				}
+				return r
+			}
 			if l == r {
 				return l
 			}
@@ -101,6 +115,24 @@ func hTypeOf(e Expr) hTy {
 		return hTyUnknown
 	}
 	return hTyUnknown
+}
+
+func hLiteralTruthy(e Expr) (truthy bool, known bool) {
+	switch x := e.Data.(type) {
+	case *ENull, *EUndefined:
+		return false, true
+	case *EBoolean:
+		return x.Value, true
+	case *ENumber:
+		return x.Value != 0 && x.Value == x.Value, true
+	case *EString:
+		return len(x.Value) > 0, true
+	case *EBigInt:
+		return x.Value != "0", true
+	case *EObject, *EArray, *ERegExp, *EFunction, *EArrow:
+		return true, true
+	}
+	return false, false
 }
 
 func hMayBeObjectOrSymbol(e Expr) bool {
@@ -387,4 +419,108 @@ func vK04a() {
 		vAssert(!hMayEffect(e, false), "an expression reported removable has no observable effect in the reference semantics")
 	}
 	vReach("end")
+}
+
+// ---- type-sensitive family: an operand whose primitive type must be merged
+// from two branches (||, &&, ??, ?:) inside the constructs whose removability
+// depends on the operand's type (template holes, ==/!=, relational operators)
+
+func hLeaf6() Expr {
+	switch vChoose(6) {
+	case 0:
+		return hID(0)
+	case 1:
+		return Expr{Data: &ENumber{Value: 1}}
+	case 2:
+		return hStrE("s")
+	case 3:
+		return Expr{Data: &EObject{}}
+	case 4:
+		return Expr{Data: &EBigInt{Value: "1"}}
+	}
+	return Expr{Data: ENullShared}
+}
+
+func hMergeNode() Expr {
+	a, b := hLeaf6(), hLeaf6()
+	switch vChoose(4) {
+	case 0:
+		return Expr{Data: &EBinary{Op: BinOpLogicalOr, Left: a, Right: b}}
+	case 1:
+		return Expr{Data: &EBinary{Op: BinOpLogicalAnd, Left: a, Right: b}}
+	case 2:
+		return Expr{Data: &EBinary{Op: BinOpNullishCoalescing, Left: a, Right: b}}
+	}
+	return Expr{Data: &EIf{Test: hID(1), Yes: a, No: b}}
+}
+
+func vK04aTyped() {
+	ctx := MakeHelperContext(hIsUnbound)
+	inner := hMergeNode()
+	var e Expr
+	switch vChoose(4) {
+	case 0:
+		e = Expr{Data: &ETemplate{Parts: []TemplatePart{{Value: inner}}}}
+	case 1:
+		op := []OpCode{BinOpLooseEq, BinOpLooseNe}[vChoose(2)]
+		if vBool() {
+			e = Expr{Data: &EBinary{Op: op, Left: inner, Right: hLeaf6()}}
+		} else {
+			e = Expr{Data: &EBinary{Op: op, Left: hLeaf6(), Right: inner}}
+		}
+	case 2:
+		op := []OpCode{BinOpLt, BinOpLe, BinOpGt, BinOpGe}[vChoose(4)]
+		if vBool() {
+			e = Expr{Data: &EBinary{Op: op, Left: inner, Right: hLeaf6()}}
+		} else {
+			e = Expr{Data: &EBinary{Op: op, Left: hLeaf6(), Right: inner}}
+		}
+	default:
+		op := []OpCode{UnOpNeg, UnOpCpl, UnOpPos, UnOpNot, UnOpVoid}[vChoose(5)]
+		e = Expr{Data: &EUnary{Op: op, Value: inner}}
+	}
+	vObserveStr("expr", hDescribe(e))
+	if ctx.ExprCanBeRemovedIfUnused(e) {
+		vAssert(!hMayEffect(e, false), "an expression reported removable has no observable effect in the reference semantics")
+	}
+	vReach("end")
+}
+
+func hDescribe(e Expr) string {
+	switch x := e.Data.(type) {
+	case *EIdentifier:
+		if x.Ref.InnerIndex == hUnboundIdx {
+			return "u"
+		}
+		return "a"
+	case *ENumber:
+		return "1"
+	case *EString:
+		return "'s'"
+	case *EObject:
+		return "{}"
+	case *EBigInt:
+		return "1n"
+	case *ENull:
+		return "null"
+	case *EUndefined:
+		return "undefined"
+	case *EBoolean:
+		return "true"
+	case *ERegExp:
+		return "/x/"
+	case *EUnary:
+		return OpTable[x.Op].Text + "(" + hDescribe(x.Value) + ")"
+	case *EBinary:
+		return "(" + hDescribe(x.Left) + " " + OpTable[x.Op].Text + " " + hDescribe(x.Right) + ")"
+	case *EIf:
+		return "(" + hDescribe(x.Test) + " ? " + hDescribe(x.Yes) + " : " + hDescribe(x.No) + ")"
+	case *ETemplate:
+		s := "`"
+		for _, p := range x.Parts {
+			s += "${" + hDescribe(p.Value) + "}"
+		}
+		return s + "`"
+	}
+	return "?"
 }
